@@ -938,13 +938,17 @@ class Controller:
         nb = bnot(b)
         if k is False or self.known.get(nb.id) is True:
             raise Infeasible('precondition contradicts the path condition: ' + show(b, 3))
+        # a precondition is not implied by the decisions before it: it is kept apart from the forced decisions, as a
+        # hypothesis a counter-model of the path has to satisfy (like the global assumptions)
         if self.pos < len(self.prefix):
+            self.local_pos.add(len(self.taken))
             self.pos += 1
             self._take(b, True)
             return
         if not self._feasible(b):
             raise Infeasible('precondition infeasible on this path: ' + show(b, 3))
         self.stats['forced'] += 1
+        self.local_pos.add(len(self.taken))
         self.pos += 1
         self._take(b, True)
 
@@ -967,6 +971,7 @@ class Controller:
         while pending:
             self.prefix, self.prefix_free = pending.pop()
             self.free_pos = set()
+            self.local_pos = set()
             self.pos = 0
             self.taken = []
             self.known = {}
@@ -989,6 +994,7 @@ class Controller:
                 CTRL = prev
             pending.extend((alt, frozenset(p for p in self.free_pos if p < len(alt))) for alt in self.alts)
             self.last_free = [self.pc[i] for i in sorted(self.free_pos) if i < len(self.pc)]
+            self.last_local = [self.pc[i] for i in sorted(self.local_pos) if i < len(self.pc)]
             if out[0] != 'infeasible':
                 self.stats['paths'] += 1
                 if self.stats['paths'] > self.max_paths:
@@ -1009,11 +1015,45 @@ def _int_atom(kind, x):
         return C(int(round(q)))
     if int_valued(x):
         return x
+    # x = I + r with I an integer-valued sum of addends: round(I + r) = I + round(r), floor likewise.  The atom then
+    # stands for the small remainder only, which bound propagation settles (|r| < 1/2 gives 0) where branch and bound
+    # on the unbounded integers of I does not terminate
+    ints, rest = _split_integer_addends(x)
+    if ints and rest:
+        acc = ints[0]
+        for t in ints[1:]:
+            acc = add(acc, t)
+        r = rest[0]
+        for t in rest[1:]:
+            r = add(r, t)
+        return add(acc, _int_atom(kind, r))
     tab = CTX.__dict__.setdefault('_intatoms', {})
     key = (kind, x.id)
     if key not in tab:
         tab[key] = CTX.var(f'{kind}@{x.id}', kind='int', defn=(kind, x))
     return tab[key]
+
+
+def _split_integer_addends(x):
+    """addends of x (through sums and products with rational constants), split into the integer-valued ones and
+    the others"""
+    terms = []
+
+    def walk(n, k, depth=0):
+        if depth < 200 and n.op == '+':
+            walk(n.args[0], k, depth + 1)
+            walk(n.args[1], k, depth + 1)
+        elif depth < 200 and n.op == '*' and is_const(n.args[0]) and n.args[0].val.is_rational():
+            walk(n.args[1], k * n.args[0].val, depth + 1)
+        else:
+            terms.append(mul(C(k), n))
+    walk(x, Q3(1))
+    if len(terms) < 2:
+        return [], terms
+    ints, rest = [], []
+    for t in terms:
+        (ints if int_valued(t) else rest).append(t)
+    return ints, rest
 
 
 def int_valued(x):
